@@ -29,6 +29,20 @@ type MRunner struct {
 	Flags [NSlots]int
 	// CursorOpen: after WriteAt the references disagree on where the cursor is
 	CursorOpen [NSlots]bool
+	// Links: link path -> target path of every symlink created so far (generation only)
+	Links map[string]string
+}
+
+// TouchesLink reports whether p is, contains or lies on the path of a symlink or its target.
+func (r *MRunner) TouchesLink(p string) bool {
+	p = model.Clean(p)
+	in := func(a, b string) bool { return a == b || (len(a) > len(b) && a[:len(b)] == b && (b == "/" || a[len(b)] == '/')) }
+	for l, t := range r.Links {
+		if in(l, p) || in(t, p) || in(p, l) || in(p, t) {
+			return true
+		}
+	}
+	return false
 }
 
 func NewMRunner() *MRunner { return &MRunner{M: model.New()} }
@@ -193,6 +207,10 @@ func (r *MRunner) Do(s Step) (res MRes) {
 		if c := model.Clean(s.Path2); m.Get(c) == nil && m.Get(parentOf(c)) != nil && m.Get(parentOf(c)).Kind == "dir" {
 			m.Nodes[c] = &model.Node{Kind: "link", Perm: 0777}
 			m.Ever[c] = true
+			if r.Links == nil {
+				r.Links = map[string]string{}
+			}
+			r.Links[c] = model.Clean(s.Path)
 		}
 	case "arch_archive":
 		res.DontCare = true
